@@ -76,6 +76,8 @@ class SymExec:
         self.helpers: Dict[str, Tuple[ast.FunctionDef, ast.AST]] = {}
         self.inline_helpers = inline_helpers
         self._opaque = 0
+        a = fnode.args
+        self.params = {x.arg for x in a.posonlyargs + a.args + a.kwonlyargs}
         self._run(fnode.body, {})
 
     # -- expression reading -------------------------------------------------------------------------
@@ -203,6 +205,15 @@ class SymExec:
                         new.values.append(self.subst(kw.value, env))
                 env[nm] = new
                 return env
+            if m == 'update' and nm in env and not isinstance(cur, ast.Dict) and len(v.args) == 1 and not v.keywords:
+                # a mapping bound to something else than a display: recorded as the merge `cur | arg` (later layers win)
+                env = dict(env)
+                env[nm] = ast.BinOp(left=copy.deepcopy(cur), op=ast.BitOr(), right=self.subst(v.args[0], env))
+                return env
+            if m == 'update' and nm not in env and len(v.args) == 1 and not v.keywords and nm in self.params:
+                env = dict(env)
+                env[nm] = ast.BinOp(left=ast.Name(id=nm, ctx=ast.Load()), op=ast.BitOr(), right=self.subst(v.args[0], env))
+                return env
             if m in MUTATORS and nm in env:
                 return self._havoc(env, {nm}, s)
         return env
@@ -254,7 +265,13 @@ class SymExec:
             if isinstance(s, (ast.For, ast.While)):
                 bound = _names_stored(s) | {n for n in _mutated_names(s) if n in env}
                 env_in = self._havoc(env, bound, s)
-                self._run(s.body, env_in)
+                env_body = dict(env_in)
+                if isinstance(s, ast.For):
+                    # inside the body the loop targets simply name the current element
+                    for x in ast.walk(s.target):
+                        if isinstance(x, ast.Name):
+                            env_body[x.id] = ast.Name(id=x.id, ctx=ast.Load())
+                self._run(s.body, env_body)
                 if s.orelse:
                     self._run(s.orelse, env_in)
                 env = env_in
@@ -407,3 +424,21 @@ def canon(e: ast.AST) -> ast.AST:
 
 def ctext(e: ast.AST) -> str:
     return ast.unparse(canon(e))
+
+
+def merge_layers(e: ast.AST):
+    """`base | a | b` (possibly with conditionally applied layers, `x | c if t else x`) as a list of
+    (layer expression, condition or None, condition truth): later layers take precedence."""
+    if isinstance(e, ast.BinOp) and isinstance(e.op, ast.BitOr):
+        return merge_layers(e.left) + [(e.right, None, True)]
+    if isinstance(e, ast.IfExp):
+        la, lb = merge_layers(e.body), merge_layers(e.orelse)
+
+        def same(x, y):
+            return ast.dump(x[0]) == ast.dump(y[0]) and (x[1] is None) == (y[1] is None) and (x[1] is None or ast.dump(x[1]) == ast.dump(y[1])) and x[2] == y[2]
+
+        if len(lb) < len(la) and all(same(x, y) for x, y in zip(la, lb)):
+            return lb + [(x[0], e.test, True) if x[1] is None else x for x in la[len(lb):]]
+        if len(la) < len(lb) and all(same(x, y) for x, y in zip(la, lb)):
+            return la + [(x[0], e.test, False) if x[1] is None else x for x in lb[len(la):]]
+    return [(e, None, True)]
